@@ -31,6 +31,10 @@ type c09Inst struct {
 	lastTxs []pb.Transaction
 	ibtpIdx uint64
 	lastErr error
+	// the last replacement of an existing height: hash obtained by the executor's own rollback
+	// path and by the reference (explicit rollback + restart + execution)
+	forkRef, forkGot string
+	forkH            uint64
 }
 
 func newC09Inst() *c09Inst {
@@ -133,10 +137,21 @@ func (in *c09Inst) apply(op string) bool {
 		}
 		h := head - k
 		txs := in.mkTxs(f[2])
+		// reference: a copy of the node on which the ledger is first rolled back to h-1 and
+		// restarted, and which then executes the same block at height h
+		ref := in.w.Fork()
+		refHash := ""
+		if err := ref.R.L.Rollback(h - 1); err == nil {
+			if err := ref.R.Reopen(); err == nil {
+				refHash = ref.R.ExecBlockAt(h, txs, in.w.TS+1000000000).Block.BlockHash.String()
+			}
+		}
+		ref.R.Close()
 		in.forget(h - 1)
 		in.w.TS += 1000000000
 		res := in.w.R.ExecBlockAt(h, txs, in.w.TS)
 		in.record(res, txs)
+		in.forkRef, in.forkGot, in.forkH = refHash, res.Block.BlockHash.String(), h
 	case "reopen":
 		if err := in.w.R.Reopen(); err != nil {
 			panic(err)
@@ -174,6 +189,13 @@ func (in *c09Inst) check(c *mc.Ctx, path []string) {
 	rep := map[string]interface{}{"engine": "c09.chainmc", "ops": path}
 	bad := func(sig, format string, a ...interface{}) {
 		c.Report("C09|"+sig, fmt.Sprintf(format, a...)+" after "+joinOps(path), rep)
+	}
+	if in.forkRef != "" {
+		c.Add("replacements_compared_with_reference", 1)
+		if in.forkRef != in.forkGot {
+			bad("replaced-block-differs-from-reference", "the block that replaced height %d has hash %s; a node rolled back to %d, restarted and given the same block gets %s", in.forkH, in.forkGot, in.forkH-1, in.forkRef)
+		}
+		in.forkRef = ""
 	}
 	l := in.w.R.L
 	meta := l.GetChainMeta()
@@ -397,7 +419,7 @@ func C09(c *mc.Ctx) {
 		ops = append(ops, "reexecsame", "reexecdiff 0 t", "reexecdiff 1 ibtp", "reexecdiff 1 empty", "reopen")
 		return ops
 	}
-	b := &mc.BFS{C: c, Name: "chainmc", MaxDepth: depth,
+	b := &mc.BFS{C: c, Name: "chainmc", MaxDepth: depth, EveryTransition: true,
 		Init:    func() mc.Instance { return newC09Inst() },
 		Enabled: enabled,
 		Apply:   func(in mc.Instance, op string, path []string) (bool, bool) { return in.(*c09Inst).apply(op), false },
